@@ -92,11 +92,12 @@ prop(
 prop(
     "C06",
     level="exploration",
-    rule=("direct: three endpoints (make_participants and the real negotiate_prss path) x 10 step names (incl. concatenation look-alikes a/b, "
-          "ab, aa, bit1/bit10) x 11 indices (0 .. u32::MAX) x single and multi-block draws: right value == right neighbour's left value, "
+    rule=("direct: three endpoints (make_participants and the real negotiate_prss path) x 10 short step names (incl. concatenation look-alikes a/b, "
+          "ab, aa, bit1/bit10) and ~50 step strings of 15..1030 bytes that differ only in their final byte or by one child level x 11 indices (0 .. u32::MAX) x single and multi-block draws: right value == right neighbour's left value, "
           "all values pairwise distinct across (pair, step, index, offset); offsets 0..=2048 served and distinct, 2049 panics; sequential "
           "generators agree and are exclusive with indexed access; cross-shard randomness (real gen_and_distribute and the context's) "
-          "identical on all shards of a helper and matching neighbours. log monitor: every PRSS draw of complete hybrid queries (1-2 "
+          "identical on all shards of a helper and matching neighbours; with a leader that closes its seed channels without sending, "
+          "sibling shards must fail or hold their neighbours' randomness. log monitor: every PRSS draw of complete hybrid queries (1-2 "
           "shards, several sizes, padding on/off) and sharded shuffles (0..257 rows, 1-5 shards) is recorded by hook H5 and checked offline: "
           "no (generator, index:offset) drawn twice, equal outputs only for equal (step, index:offset). distinct = (origin, step, index, "
           "blocks) / (workload, number of distinct draws)"),
